@@ -211,8 +211,19 @@ func runC04(env *Env, tier string) {
 		c.Extra = map[string]string{"EnableNextExpectedMsgSeqNum": "Y"}
 		env.Stat("probe_next_expected_option_peer_without_tag")
 	}
+	peer789 := 0
+	if c.Extra != nil && ch.Chance("peeruses789", 1, 2) {
+		// ... or it does use it: the application has sent 1-3 messages before the connection is up, the
+		// counterparty has seen none of them and says so (789=1). With and without persisted messages.
+		peer789 = 1 + ch.Choose("presends", 3)
+		c.PersistOff = ch.Chance("persistoff", 1, 2)
+		env.Stat("probe_next_expected_option_peer_with_tag")
+	}
 	s := StartSut(env, c)
 	p := s.P
+	for i := 0; i < peer789; i++ {
+		s.E.Send("D", AppBody(fmt.Sprintf("pre%d", i)))
+	}
 	m := &c04Model{env: env, s: s, chunk: c.ChunkSize, plan: map[int]c04Plan{}, received: map[int]bool{}, early: map[int]bool{}, adminEarly: map[int]bool{}}
 	m.top = func() int { return p.OutSeq }
 	if c.BeginString < "FIX.4.2" {
@@ -235,7 +246,7 @@ func runC04(env *Env, tier string) {
 
 	// ---- logon, possibly with the gap on the Logon itself ----
 	logonGap := 0
-	if ch.Chance("logongap", 1, 4) {
+	if peer789 == 0 && ch.Chance("logongap", 1, 4) { // (a counterparty using tag 789 fills a gap on the Logon on its own, unasked)
 		logonGap = 1 + ch.Choose("logongapsize", 6)
 		for i := 0; i < logonGap; i++ {
 			alloc(ch.Chance("plan", 1, 2))
@@ -246,7 +257,11 @@ func runC04(env *Env, tier string) {
 		env.Fatalf("no connection")
 	}
 	logonSeq := alloc(false)
-	b, _ := p.Build("A", p.LogonBody(hb, false), MsgOpt{Seq: logonSeq})
+	lb := p.LogonBody(hb, false)
+	if peer789 > 0 {
+		lb = append(lb, wire.FI(789, 1))
+	}
+	b, _ := p.Build("A", lb, MsgOpt{Seq: logonSeq})
 	if logonGap == 0 {
 		r := p.SendRaw(b, MsgOpt{})
 		if _, ok := LastOfType(append(p.Recv[:0:0], p.Recv...), "A"); !ok {
